@@ -1,6 +1,6 @@
 (* group_spec and params_exact for one mux without mounts. *)
 From GoRes Require Import Mux.Spec Pattern.Lemmas Mux.ProofsMatch Mux.ProofsOrder Mux.ProofsFetch Mux.ProofsFlat
-  Mux.ProofsLookup Mux.ProofsTop.
+  Mux.ProofsLookup Mux.ProofsTop Mux.ProofsReg.
 From Coq Require Import Lia Arith PeanoNat.
 Open Scope N_scope.
 
@@ -221,24 +221,19 @@ Proof.
   destruct o; [destruct (is_ok _)|]; reflexivity.
 Qed.
 
-Fixpoint handles_only (ops : list fop) : bool :=
-  match ops with [] => true | FHandle _ _ _ _ :: r => handles_only r | FListen _ _ :: _ => false end.
-
-(* ho = the op list has no AddListener: then the params of a handler node are its pattern's *)
-Definition P_reg (ho : bool) (S : list entry) (path : list ptok) (n : node) : Prop :=
-  (ho = true -> node_hs n = None -> node_params n = []) /\
+Definition P_reg (S : list entry) (path : list ptok) (n : node) : Prop :=
   forall hid g, node_hs n = Some (hid, g) ->
     exists e, In e S /\ e_hid e = hid /\ e_skel e = path /\ pgroup (e_par e) (e_grp e) (e_pat e) = Some g /\
-              (ho = true -> node_params n = pparams 0 (split_pattern (e_pat e))).
+              node_params n = Some (pparams 0 (split_pattern (e_pat e))).
 
-Lemma P_reg_loc : forall ho S path n n', loc_eq n n' -> P_reg ho S path n -> P_reg ho S path n'.
-Proof. intros ho S path n n' (E1 & E2 & _ & _) H. unfold P_reg in *. rewrite E1, E2. exact H. Qed.
-Lemma P_reg_empty : forall ho S path, P_reg ho S path empty_node.
-Proof. intros. split; [reflexivity|]. intros hid g X. discriminate. Qed.
-Lemma P_reg_mono : forall ho S S' path n, (forall e, In e S -> In e S') -> P_reg ho S path n -> P_reg ho S' path n.
+Lemma P_reg_loc : forall S path n n', loc_eq n n' -> P_reg S path n -> P_reg S path n'.
+Proof. intros S path n n' (E1 & E2 & _ & _) H. unfold P_reg in *. rewrite E1, E2. exact H. Qed.
+Lemma P_reg_empty : forall S path, P_reg S path empty_node.
+Proof. intros S path hid g X. discriminate. Qed.
+Lemma P_reg_mono : forall S S' path n, (forall e, In e S -> In e S') -> P_reg S path n -> P_reg S' path n.
 Proof.
-  intros ho S S' path n Sub [H1 H2]. split; [exact H1|]. intros hid g X.
-  destruct (H2 hid g X) as (e & I & R). exists e. split; [apply Sub, I|exact R].
+  intros S S' path n Sub H hid g X.
+  destruct (H hid g X) as (e & I & R). exists e. split; [apply Sub, I|exact R].
 Qed.
 
 Lemma add_flat_norm : forall root pat hid grp par, Inv P_flat [] root ->
@@ -250,7 +245,7 @@ Lemma add_flat_norm : forall root pat hid grp par, Inv P_flat [] root ->
                              None (split_pattern pat) 0 0 [] false root
   end.
 Proof.
-  intros root pat hid grp par FL. rewrite ProofsReg.add_unfold.
+  intros root pat hid grp par FL. rewrite add_unfold.
   destruct (pgroup par grp pat) as [g|]; [|reflexivity]. destruct (negb (is_valid pat)); [reflexivity|].
   apply fetch_flat_norm; [reflexivity|exact FL].
 Qed.
@@ -259,63 +254,124 @@ Lemma const_fin_kids : forall hid g ps0 fr n (ps : list pparam) (mi : nat),
   kids_eq n (out_state ((fun fr n (_ : list pparam) (_ : nat) => add_fin true hid g fr n ps0 0%nat) fr n ps mi)).
 Proof. intros. apply add_fin_kids. Qed.
 
-Lemma frun_op_reg : forall ho S root o,
-  (ho = true -> match o with FHandle _ _ _ _ => True | FListen _ _ => False end) ->
-  Inv P_flat [] root -> Inv (P_reg ho S) [] root ->
-  Inv (P_reg ho (S ++ match o with
-                      | FHandle pat hid grp par => if is_ok (frun_op root o) then [Ent pat hid grp par] else []
-                      | FListen _ _ => [] end)) [] (out_state (frun_op root o)).
+Lemma frun_op_reg : forall S root o,
+  Inv P_flat [] root -> Inv (P_reg S) [] root ->
+  Inv (P_reg (S ++ match o with
+                   | FHandle pat hid grp par => if is_ok (frun_op root o) then [Ent pat hid grp par] else []
+                   | FListen _ _ => [] end)) [] (out_state (frun_op root o)).
 Proof.
-  intros ho S root o HO FL I.
+  intros S root o FL I.
   destruct o as [pat hid grp par|pat l]; cbn [frun_op] in *.
   - set (S' := S ++ (if is_ok (add root pat hid grp par) then [Ent pat hid grp par] else [])).
-    assert (I' : Inv (P_reg ho S') [] root).
+    assert (I' : Inv (P_reg S') [] root).
     { intros q m Rq. eapply P_reg_mono; [|apply I, Rq]. intros e Ie. apply in_app_iff. left. exact Ie. }
+    assert (SB : is_ok (add root pat hid grp par) = true -> In (Ent pat hid grp par) S').
+    { intros X. unfold S'. rewrite X. apply in_app_iff. right. left. reflexivity. }
+    clearbody S'.
     remember (is_ok (add root pat hid grp par)) as b eqn:Hb. symmetry in Hb.
     revert Hb. rewrite (add_flat_norm root pat hid grp par FL). intros Hb.
     destruct (pgroup par grp pat) as [g|] eqn:PG; [|exact I'].
     destruct (negb (is_valid pat)); [exact I'|].
-    apply (fetch_inv (P_reg ho S') (P_reg_loc ho S') (fun path _ => P_reg_empty ho S' path) false _
+    apply (fetch_inv (P_reg S') (P_reg_loc S') (fun path _ => P_reg_empty S' path) false _
              (const_fin_kids hid g (pparams 0 (split_pattern pat))) Q_true
              (fun _ _ _ _ => Logic.I) (fun _ _ _ _ _ => Logic.I) _ _ _ _ _ _ _ b Hb); auto; try exact Logic.I.
     intros fr n ps' Hb' _ Pn. cbn [app] in *.
-    assert (Pn' : P_reg ho S' (sk (split_pattern pat)) n) by (destruct Pn as [X| ->]; [exact X|apply P_reg_empty]).
+    assert (Pn' : P_reg S' (sk (split_pattern pat)) n) by (destruct Pn as [X| ->]; [exact X|apply P_reg_empty]).
     destruct (add_fin true hid g fr n (pparams 0 (split_pattern pat)) 0%nat) as [n'|e n'] eqn:E; cbn [out_state].
-    + cbn in Hb'. subst b. destruct (loc_add_fin _ _ _ _ _ _ _ _ E) as (HS & E1 & _ & _ & E2).
-      split.
-      * intros _ X. congruence.
-      * intros hid' g' X. rewrite E1 in X. cbn in X. injection X as <- <-.
-        exists (Ent pat hid grp par). split; [apply in_app_iff; right; left; reflexivity|].
-        split; [reflexivity|]. split; [apply skel_ptoks|]. split; [exact PG|].
-        intros HOt. destruct E2 as [E2|[_ E2]]; [|exact E2].
-        rewrite E2. destruct Pn' as [P1 _]. rewrite (P1 HOt HS).
-        (* old params were [] and stay [] only if the new ones are [] too *)
-        unfold add_fin in E. rewrite HS in E. destruct n as [a b c d e0 f k]. cbn in P1, E, E2 |- *.
-        rewrite (P1 HOt HS) in E. cbn in E. injection E as <-. cbn in E2. rewrite (P1 HOt HS) in E2. auto.
+    + cbn in Hb'. subst b. destruct (loc_add_fin _ _ _ _ _ _ _ _ E) as (HS & E1 & _ & _ & E2 & _).
+      intros hid' g' X. rewrite E1 in X. cbn in X. injection X as <- <-.
+      exists (Ent pat hid grp par). split; [apply SB; symmetry; exact Hb'|].
+      split; [reflexivity|]. split; [apply skel_ptoks|]. split; [exact PG|exact E2].
     + apply add_fin_panic_state in E. subst n'. exact Pn'.
-  - rewrite app_nil_r. destruct ho; [destruct (HO eq_refl)|].
-    apply (listen_inv (P_reg false S) (P_reg_loc false S) (fun path _ => P_reg_empty false S path) Q_true
+  - rewrite app_nil_r.
+    apply (listen_inv (P_reg S) (P_reg_loc S) (fun path _ => P_reg_empty S path) Q_true
              (fun _ _ _ _ => Logic.I) (fun _ _ _ _ _ => Logic.I) Logic.I)
       with (b := is_ok (add_listener root pat l)); auto.
     intros fr n ps' _ _ Pn.
-    assert (Pn' : P_reg false S (sk (split_pattern pat)) n) by (destruct Pn as [X| ->]; [exact X|apply P_reg_empty]).
+    assert (Pn' : P_reg S (sk (split_pattern pat)) n) by (destruct Pn as [X| ->]; [exact X|apply P_reg_empty]).
     destruct (listen_fin l fr n ps' 0%nat) as [n'|e n'] eqn:E; cbn [out_state].
-    + destruct (loc_listen_fin _ _ _ _ _ _ E) as (E1 & _). destruct Pn' as [_ P2].
-      split; [discriminate|]. intros hid g X. rewrite E1 in X. destruct (P2 hid g X) as (e & Ie & A & B & C & _).
-      exists e. repeat split; auto. discriminate.
+    + destruct (loc_listen_fin _ _ _ _ _ _ E) as (E1 & _ & _ & E2 & E3).
+      intros hid g X. rewrite E1 in X. destruct (Pn' hid g X) as (e & Ie & A & B & C & D).
+      exists e. repeat split; auto. rewrite E2. destruct E3 as [E3|E3]; congruence.
     + apply listen_fin_panic_state in E. subst n'. exact Pn'.
 Qed.
 
-Lemma frun_reg : forall ho ops S root,
-  (ho = true -> handles_only ops = true) ->
-  flat_inv root -> Inv (P_reg ho S) [] root -> Inv (P_reg ho (S ++ fent root ops)) [] (frun root ops).
+Lemma frun_reg : forall ops S root,
+  flat_inv root -> Inv (P_reg S) [] root -> Inv (P_reg (S ++ fent root ops)) [] (frun root ops).
 Proof.
-  induction ops as [|o r IH]; intros S root HO FI I; cbn [frun fent].
+  induction ops as [|o r IH]; intros S root FI I; cbn [frun fent].
   - rewrite app_nil_r. exact I.
   - rewrite app_assoc. apply IH.
-    + intros H. specialize (HO H). destruct o; [exact HO|discriminate].
     + apply (flat_inv_frun [o] root FI).
-    + apply frun_op_reg; [|apply FI|exact I]. intros H. specialize (HO H). destruct o; [exact Logic.I|discriminate].
+    + apply frun_op_reg; [apply FI|exact I].
+Qed.
+
+(* ---- accepted Handle calls have pairwise different skeletons ---- *)
+Lemma fetch_ok_fin : forall v0 fin (Good : node -> Prop),
+  (forall fr n ps mi n', fin fr n ps mi = Ok n' -> Good n) ->
+  forall toks i mi ps fr l l', fetch_gen v0 fin None toks i mi ps fr l = Ok l' ->
+  forall m, reach l (sk toks) m -> Good m.
+Proof.
+  intros v0 fin Good HG. induction toks as [|t rest IH]; intros i mi ps fr l l' H m Rm.
+  - cbn in *. inversion Rm; subst. eapply HG; eauto.
+  - rewrite fetch_cons in H. cbv zeta in H.
+    destruct (fetch_step v0 t rest i (if node_mounted l then i else mi) ps l) as [e|edge child ps' mk] eqn:ST; [discriminate|].
+    destruct (fetch_step_ok _ _ _ _ _ _ _ _ _ _ _ ST) as ([_ SC] & EE & _).
+    destruct (fetch_gen v0 fin None rest (S i) (if node_mounted l then i else mi) ps' false child) as [c'|e c'] eqn:F; [|discriminate].
+    change (sk (t :: rest)) with (sk1 t :: sk rest) in Rm. rewrite <- EE in Rm.
+    apply (IH _ _ _ _ _ _ F).
+    destruct edge as [b0|x| |]; [|destruct SC| |]; destruct SC as [-> _]; inversion Rm; subst;
+      match goal with HH : _ = Some _ |- _ => rewrite HH end; cbn [child_or_empty]; assumption.
+Qed.
+
+Lemma add_ok_fresh : forall root pat hid grp par, is_ok (add root pat hid grp par) = true ->
+  forall h, ~ has_pattern root (skel (ptoks pat)) h.
+Proof.
+  intros root pat hid grp par H h Hp. rewrite add_unfold in H.
+  destruct (pgroup par grp pat) as [g|]; [|discriminate]. destruct (negb (is_valid pat)); [discriminate|].
+  destruct (fetch_gen false (add_fin true hid g) None (split_pattern pat) 0 0 [] false root) as [l'|e l'] eqn:F; [|discriminate].
+  apply has_pattern_reach in Hp. destruct Hp as (m & Rm & Em). rewrite skel_ptoks in Rm.
+  assert (G : node_hs m = None).
+  { apply (fetch_ok_fin false (add_fin true hid g) (fun n => node_hs n = None)) with (1 := fun fr n ps mi n' E => proj1 (loc_add_fin _ _ _ _ _ _ _ _ E)) (2 := F) (3 := Rm). }
+  congruence.
+Qed.
+
+Lemma frun_op_keeps : forall root o q h, has_pattern root q h -> has_pattern (out_state (frun_op root o)) q h.
+Proof.
+  intros root o q h H. destruct o as [pat hid grp par|pat l]; cbn [frun_op].
+  - destruct (add_pats root pat hid grp par) as (oh & _ & HP). apply HP. right. exact H.
+  - apply listen_pats. exact H.
+Qed.
+
+Lemma fent_fresh : forall ops root e, In e (fent root ops) -> forall h, ~ has_pattern root (e_skel e) h.
+Proof.
+  induction ops as [|o r IH]; intros root e I h Hp; [destruct I|].
+  cbn [fent] in I. apply in_app_iff in I as [I|I].
+  - destruct o as [pat hid grp par|pat l]; [|destruct I].
+    destruct (is_ok (frun_op root (FHandle pat hid grp par))) eqn:OK; [|destruct I].
+    destruct I as [<-|[]]. eapply add_ok_fresh; eauto.
+  - eapply IH; [exact I|]. apply frun_op_keeps. exact Hp.
+Qed.
+
+Lemma fent_unique : forall ops root e1 e2, In e1 (fent root ops) -> In e2 (fent root ops) ->
+  e_skel e1 = e_skel e2 -> e1 = e2.
+Proof.
+  induction ops as [|o r IH]; intros root e1 e2 I1 I2 E; [destruct I1|].
+  cbn [fent] in I1, I2. apply in_app_iff in I1, I2.
+  assert (HD : forall e e', In e (match o with
+                  | FHandle pat hid grp par => if is_ok (frun_op root o) then [Ent pat hid grp par] else []
+                  | FListen _ _ => [] end) -> In e' (fent (out_state (frun_op root o)) r) -> e_skel e = e_skel e' -> False).
+  { intros e e' Ie Ie' Es. destruct o as [pat hid grp par|pat l]; [|destruct Ie].
+    destruct (is_ok (frun_op root (FHandle pat hid grp par))) eqn:OK; [|destruct Ie]. destruct Ie as [<-|[]].
+    cbn [frun_op] in *. destruct (add_pats root pat hid grp par) as (oh & HR & HP). rewrite OK in HR.
+    destruct HR as (g & ->). eapply (fent_fresh _ _ _ Ie' (hid, g)). apply HP. left. split; [|reflexivity].
+    symmetry. exact Es. }
+  destruct I1 as [I1|I1], I2 as [I2|I2].
+  - destruct o as [pat hid grp par|pat l]; [|destruct I1]. destruct (is_ok _); [|destruct I1].
+    destruct I1 as [<-|[]], I2 as [<-|[]]. reflexivity.
+  - destruct (HD e1 e2 I1 I2 E).
+  - destruct (HD e2 e1 I2 I1 (eq_sym E)).
+  - eapply IH; eauto.
 Qed.
 
 (* ---- group_spec and params_exact for one mux ---- *)
@@ -327,10 +383,9 @@ Lemma lookup_full_flat_pf : forall path ops name,
   | Some toks =>
     match best_of e_skel (fent empty_node ops) toks with
     | None => get_handler (flat_state path ops) 0 name = LNone
-    | Some e => exists ls ps gs,
-        get_handler (flat_state path ops) 0 name = LHit (e_hid e) ls ps gs /\
-        group_spec_of (e_par e) (e_grp e) name (pvalues (ptoks (e_pat e)) toks) = Some gs /\
-        (handles_only ops = true -> ps = pvalues (ptoks (e_pat e)) toks)
+    | Some e => exists ls gs,
+        get_handler (flat_state path ops) 0 name = LHit (e_hid e) ls (pvalues (ptoks (e_pat e)) toks) gs /\
+        group_spec_of (e_par e) (e_grp e) name (pvalues (ptoks (e_pat e)) toks) = Some gs
     end
   end.
 Proof.
@@ -347,38 +402,14 @@ Proof.
     destruct (better (e_skel y) (e_skel x)); reflexivity. }
   rewrite BM in H. destruct (best_of e_skel (fent empty_node ops) tk) as [e|] eqn:BO; cbn [option_map] in H; [|exact H].
   destruct H as (n & g & ps & gs & Rn & HS & M & RP & GS & E).
-  exists (node_ls n), ps, gs. split; [exact E|].
-  set (root := frun empty_node ops) in *.
-  assert (FI0 : flat_inv empty_node) by apply flat_inv_empty.
   destruct (best_of_some _ _ _ _ _ BO) as (Ie & _ & _).
-  (* the entry registered at that node *)
-  assert (REG : forall ho, (ho = true -> handles_only ops = true) ->
-            exists e', In e' (fent empty_node ops) /\ e_hid e' = e_hid e /\ e_skel e' = e_skel e /\
-                       pgroup (e_par e') (e_grp e') (e_pat e') = Some g /\
-                       (ho = true -> node_params n = pparams 0 (split_pattern (e_pat e')))).
-  { intros ho HO.
-    pose proof (frun_reg ho ops [] empty_node HO FI0 (Inv_empty _ _ (P_reg_empty ho [] []))) as IR.
-    destruct (IR _ _ Rn) as [_ P2]. cbn [app] in P2. destruct (P2 _ _ HS) as (e' & A & B & C & D & F). eauto 10. }
-  (* accepted entries have distinct skeletons: e' = e *)
-  assert (UNI : forall e1 e2, In e1 (fent empty_node ops) -> In e2 (fent empty_node ops) -> e_skel e1 = e_skel e2 ->
-                 e_hid e1 = e_hid e2 -> pgroup (e_par e1) (e_grp e1) (e_pat e1) = Some g ->
-                 exists n2 g2, reach root (e_skel e2) n2 /\ node_hs n2 = Some (e_hid e2, g2)).
-  { intros e1 e2 _ I2 _ _ _.
-    assert (X : In (e_skel e2, e_hid e2) (fregs empty_node ops)) by (rewrite fregs_fent; apply in_map_iff; eauto).
-    assert (Y : has_hid root (e_skel e2) (e_hid e2)).
-    { unfold root. apply frun_pats. right. exact X. }
-    destruct Y as (g2 & Hp). apply has_pattern_reach in Hp. destruct Hp as (n2 & R2 & E2). eauto. }
-  split.
-  - destruct (REG false ltac:(discriminate)) as (e' & Ie' & A & B & C & _).
-    (* the group stored at n is the parsed group of e' ; relate e' and e through the trie *)
-    assert (PG : exists e'', pgroup (e_par e'') (e_grp e'') (e_pat e'') = Some g /\ e_skel e'' = e_skel e /\
-                             group_spec_of (e_par e'') (e_grp e'') name (pvalues (ptoks (e_pat e'')) tk) = Some gs).
-    { exists e'. split; [exact C|]. split; [exact B|].
-      rewrite <- (group_spec_lemma _ _ _ g name tk C); [exact GS|].
-      rewrite <- pmatch_skel. fold (e_skel e'). rewrite B. exact M. }
-    destruct PG as (e'' & C'' & B'' & G'').
-    (* e'' = e is what we still need: both are accepted entries with the same skeleton *)
-    assert (EQ : e'' = e \/ True) by (right; exact Logic.I). clear EQ.
-    admit_placeholder.
-  - intros HO. admit_placeholder.
+  pose proof (frun_reg ops [] empty_node flat_inv_empty (Inv_empty _ _ (P_reg_empty [] []))) as IR.
+  destruct (IR _ _ Rn _ _ HS) as (e' & Ie' & A & B & C & D). cbn [app] in *.
+  assert (e' = e) by (eapply fent_unique; eauto). subst e'.
+  assert (M' : pmatch (ptoks (e_pat e)) tk = true) by (rewrite <- pmatch_skel; exact M).
+  exists (node_ls n), gs. split.
+  - rewrite E. f_equal. unfold node_plist in RP. rewrite D in RP.
+    pose proof (read_pparams (split_pattern (e_pat e)) tk 0%nat [] M' eq_refl) as RR. cbn [app] in RR.
+    unfold ptoks. congruence.
+  - rewrite <- (group_spec_lemma _ _ _ g name tk C M'). exact GS.
 Qed.
